@@ -1,1 +1,78 @@
-(* C11 property theorems *)
+(* C11 — property theorems only: each closed by [exact], each followed by Print Assumptions.
+   [script_of true r] is the closure of request r transcribed from rpc_server.go (after the fixes),
+   [replies_on v s] counts the replies on the path of script s selected by a valuation v of its branch
+   conditions, [step c s t] is the interleaving model of client, core loop and producer, and
+   [Reachable (step c) (Init ns np B os)] ranges over every schedule of every operation list os. *)
+From Coq Require Import List Arith Bool ZArith Lia.
+From Dastard Require Import C10.Conc C11.Model C11.Spec C11.Proofs C11.Proofs2 C11.Proofs3.
+Import ListNotations.
+Open Scope Z_scope.
+
+(* Every path of every closure script in the table executes exactly one Reply (decided by computation
+   over the finite table, lifted with forallb_forall) ... *)
+Theorem one_reply_per_request :
+  forall r, In r closure_table -> forall v, replies_on v (script_of true r) = Some 1%nat.
+Proof. exact table_one_reply. Qed.
+Print Assumptions one_reply_per_request.
+
+(* ... and since a script depends only on the method (not on argument values) this covers every request
+   that goes through the core loop, whatever its arguments and whatever the branch conditions turn out to be. *)
+Theorem one_reply_every_request :
+  forall r, is_queued r = true -> forall v, replies_on v (script_of true r) = Some 1%nat.
+Proof. exact every_request_one_reply. Qed.
+Print Assumptions one_reply_every_request.
+
+(* The code as it was: WriteComment with an uncreatable file replies twice; ConfigureTriggers with a
+   negative index crashes inside the core loop. *)
+Theorem one_reply_per_request_refuted_pre_fix :
+  replies_on (fun c => match c with CWriting | CIoFails => true | _ => false end) (script_of false (RqComment false)) = Some 2%nat.
+Proof. exact old_comment_two_replies. Qed.
+Print Assumptions one_reply_per_request_refuted_pre_fix.
+
+Theorem no_crash_refuted_pre_fix :
+  replies_on (fun c => match c with CTrigIdxOk | CTrigIdxNeg => true | _ => false end) (script_of false (RqTriggers [-1] false)) = None.
+Proof. exact old_triggers_crash. Qed.
+Print Assumptions no_crash_refuted_pre_fix.
+
+(* The result a caller gets (from the method's own checks, from runLaterIfActive, or from the closure) is
+   an error exactly when no source is running, or the arguments are invalid in the source's state
+   (Spec.args_valid, stated independently of the handlers), or the handler's I/O step fails. *)
+Theorem reply_is_error_iff :
+  forall e r io,
+    req_outcome true e r io
+    = Some (if negb (e_flag e) || negb (args_valid e r) || io_fails e r io then RErr else ROk).
+Proof. exact reply_class. Qed.
+Print Assumptions reply_is_error_iff.
+
+(* While the client is between its send and the reply, the core loop is inside that closure (not at its
+   select, not processing a block) with exactly one reply to go; any closure the core loop runs holds no
+   crash and at most one reply. *)
+Theorem closures_exclusive :
+  forall c ns np B os s, c_fixed c = true -> Reachable (step c) (Init ns np B os) s ->
+    (awaiting (client s) = true -> exists acts, core s = KRun acts /\ nocrash acts = true /\ nreplies acts = 1%nat)
+    /\ (forall acts, core s = KRun acts -> nocrash acts = true /\ (nreplies acts <= 1)%nat).
+Proof. exact exclusive_reach. Qed.
+Print Assumptions closures_exclusive.
+
+(* For every operation list (any requests, any arguments, Start/Stop anywhere, a source of any kind that
+   may end by itself at any moment, any injected I/O failure) and every schedule: nothing crashes and no
+   reachable state is stuck — some thread can move unless the client has finished all its operations.
+   (The step bound f(B) of the design is not proved: this is the safety half.) *)
+Theorem no_wedge_partial :
+  forall c ns np B os s, c_fixed c = true -> Reachable (step c) (Init ns np B os) s ->
+    crashed s = false /\ ((exists t s', step c s t = Some s') \/ finished s = true).
+Proof. exact no_wedge_reach. Qed.
+Print Assumptions no_wedge_partial.
+
+(* The code as it was: after WriteComment's first (error) reply the client finishes while the core loop
+   is stuck for ever on the second reply. *)
+Theorem no_wedge_refuted_pre_fix :
+  exists s, run (step (mkCfg SrcTriangle 3 false false))
+                (init_state 16 4 0 [OStart; OReq (RqWriteControl (WStart true false true)) false; OReq (RqComment false) true])
+                wedge_sched = Some s
+            /\ client s = LHalt
+            /\ (exists r rest, core s = KRun (AReply r :: rest))
+            /\ is_none (step (mkCfg SrcTriangle 3 false false) s (TCore CTakeBlk)) = true
+            /\ is_none (step (mkCfg SrcTriangle 3 false false) s (TCore CTakeReq)) = true.
+Proof. exact old_comment_wedges. Qed.
+Print Assumptions no_wedge_refuted_pre_fix.
